@@ -670,7 +670,11 @@ func (l *List) CombineN(sta funcGen.Stack[Value]) (*List, error) {
 		}
 		return NewListFromIterable(func(st funcGen.Stack[Value]) iterator.Producer[Value] {
 			return iterator.CombineN[Value, Value](l.iterable(st), int(n), func(i0 int, i []Value) (Value, error) {
-				st.Push(NewList(i...))
+				// i is a ring buffer which is reused for the next call, the oldest item is found at i0
+				window := make([]Value, 0, len(i))
+				window = append(window, i[i0:]...)
+				window = append(window, i[:i0]...)
+				st.Push(NewList(window...))
 				return f.Func(st.CreateFrame(1), nil)
 			})
 		}), nil
